@@ -33,6 +33,8 @@ pub enum T01 {
     /// recursive struct with three dozen optional fields next to the recursive one: its derived visitor
     /// has a large stack frame per nesting level
     DeepWide,
+    /// Vec<()>: a sequence driven by a loop whose elements consume (or fail to consume) one unit each
+    UnitSeq,
 }
 
 macro_rules! wide_struct {
@@ -535,6 +537,7 @@ pub fn exec(c: &TotalCase, st: &mut Stats) -> Vec<Viol> {
         T01::Borrowed => run_borrowed(c),
         T01::NoOp => run_owned::<NoOpT>(c, st),
         T01::DeepWide => run_owned::<W>(c, st),
+        T01::UnitSeq => run_owned::<Vec<()>>(c, st),
     };
     if matches!(c.target, T01::Fam(Target::Cfg)) {
         obs.extend(run_valid(c));
@@ -894,7 +897,7 @@ pub fn gen_case(tier: Tier, seed: u64, idx: u64) -> Case {
         _ => Target::Json,
     };
     let mut origin = Vec::new();
-    let pick = rng.below(20);
+    let pick = rng.below(21);
     // `!!binary` payloads go to the targets that decode them, validation documents to the validated struct
     let (target, fam) = match pick {
         12 => {
@@ -913,6 +916,8 @@ pub fn gen_case(tier: Tier, seed: u64, idx: u64) -> Case {
                 T01::Fam(Target::VecS),
                 T01::Fam(Target::En),
                 T01::Bytes,
+                T01::UnitSeq,
+                T01::UnitSeq,
             ]);
             (t, if let T01::Fam(f) = t { f } else { Target::Json })
         }
@@ -970,6 +975,21 @@ pub fn gen_case(tier: Tier, seed: u64, idx: u64) -> Case {
         16 => {
             origin.push("tagged".to_string());
             tagged_doc(&mut rng)
+        }
+        19 => {
+            origin.push("long-line-error".to_string());
+            // an error far to the right on a line of 4-20 KiB of multi-byte text, with such lines around
+            // it: the stored source window is cropped by columns, on text where columns are not bytes
+            let fill = *rng.pick(&["é", "日本", "😀x", "ab"]);
+            let n = rng.range(1500, 6000);
+            let long = fill.repeat(n);
+            let broken = match rng.below(4) {
+                0 => format!("k2: \"{long}\" stray"),
+                1 => format!("k2: [{long}, [unclosed"),
+                2 => format!("k2: {long}: {long}: x"),
+                _ => format!("k2: '{long}"),
+            };
+            format!("k1: {}\n{broken}\nk3: {}\n", if rng.chance(1, 2) { long.clone() } else { "1".into() }, if rng.chance(1, 2) { long.clone() } else { "3".into() })
         }
         18 => {
             origin.push("numeric-looking".to_string());
